@@ -34,7 +34,8 @@ private def outcomeOf : Outcome → Sexp
   | .notFound => list [atom "notfound"]
   | .listing c d fs ds =>
     list [atom (if c then "catalog" else "listing"), segsOf d,
-          list (fs.map fun f => list [hexOf f.1, atom (if f.2 then "1" else "0")]), segsOf ds]
+          list (((if c then fs.filter (·.2) else fs)).map fun f => list [hexOf f.1, atom (if f.2 then "1" else "0")]),
+          segsOf ds]
   | .file p => list [atom "file", segsOf p]
   | .dap b => list [atom "dap", segsOf b]
   | .unsupported b => list [atom "unsupported", segsOf b]
